@@ -234,12 +234,17 @@ def check_C06(tier, seed):
                         rule="for every (type, value) of the universe and every representation change that applies to it (SET OF order, INTEGER sign-extension padding, DEFAULT materialised, unused-bit noise, non-canonical TRUE, structure decoded from a non-canonical BER variant): the representation is built (or decoded), must compare equal to the canonical structure, and each canonical encoder (DER, UPER, OER, CANONICAL-XER) must produce the octets of the canonical structure (DER/UPER/OER: the reference octets)")
 
 
+def check_C08(tier, seed):
+    return codec_family("C08", tier, seed, "check", exact=False,
+                        rule="for every (type, valid value) of the universe: the value itself and every value derived from it by violating exactly one value / SIZE / alphabet constraint at one position (every bound, both sides; first and last character; every element and component position; spec/Values.tla Corruptions); asn_check_constraints must return 0 iff Valid (Asn1Types.tla) and, on failure, a terminated message within every buffer size tried (0,1,2,16,L-1,L,L+1,L+2,256) that names a type")
+
+
 def check_C01(tier, seed):
     return codec_family("C01", tier, seed, "rt" if tier == "quick" else "chain", exact=False,
                         rule="sessions Build, Encode(s), Decode(s), Compare, Encode(DER) for every syntax s (thorough: all ordered pairs of syntaxes as transcoding chains) over every (type, value) of the universe; distinct = distinct (module, type, value)")
 
 
-CHECKS = {"C01": check_C01, "C02": check_C02, "C03": check_C03, "C05": check_C05, "C06": check_C06}
+CHECKS = {"C01": check_C01, "C02": check_C02, "C03": check_C03, "C05": check_C05, "C06": check_C06, "C08": check_C08}
 
 
 def replay(prop, path):
